@@ -295,3 +295,119 @@ package ttlv
 //@   trusted
 //@   ensures r0 == isenc(err)
 //@   pure
+
+// ---------------------------------------------------------------------------
+// version gating (C05)
+
+//@ iface ttlv.Version.Major
+//@   recv v
+//@   pure
+//@   functional
+//@ iface ttlv.Version.Minor
+//@   recv v
+//@   pure
+//@   functional
+
+//@ spec vmaj(v Version) int = ifn("iface ttlv.Version.Major", v)
+//@ spec vmin(v Version) int = ifn("iface ttlv.Version.Minor", v)
+//@ spec leRV(a version, v Version) bool = a.major < vmaj(v) || (a.major == vmaj(v) && a.minor <= vmin(v))
+//@ spec geRV(a version, v Version) bool = a.major > vmaj(v) || (a.major == vmaj(v) && a.minor >= vmin(v))
+//@ spec leVV(a version, b version) bool = a.major < b.major || (a.major == b.major && a.minor <= b.minor)
+//@ spec inRange(r versionRange, v version) bool = (r.start == nil || leVV(*r.start, v)) && (r.end == nil || leVV(v, *r.end))
+
+//@ func (versionRange).contains
+//@   requires v != nil
+//@   ensures r0 == ((rng.start == nil || leRV(*rng.start, v)) && (rng.end == nil || geRV(*rng.end, v)))
+//@   pure
+
+//@ func (*extension).versionIn
+//@   requires ext != nil
+//@   usebody (versionRange).contains
+//@   ensures ext.version == nil ==> r0
+//@   ensures ext.version != nil ==> r0 == inRange(vrange, *ext.version)
+//@   pure
+
+//@ func (*extension).setVersion
+//@   requires ext != nil && v != nil
+//@   ensures ext.version != nil && isnew(ext.version) && ext.version.major == vmaj(v) && ext.version.minor == vmin(v)
+//@   modifies ext.version
+
+//@ func newEncoder
+//@   ensures r0.extension != nil && isnew(r0.extension) && r0.extension.version == nil && r0.w == w
+//@   pure
+//@ func newDecoder
+//@   ensures r0.extension != nil && isnew(r0.extension) && r0.extension.version == nil && r0.r == r
+//@   pure
+
+// the gated field encoder: the wrapped encoder runs exactly when no version is set or the version is in range
+//@ ghostvar fencCalls int
+//@ ghostvar fencEnc *Encoder
+//@ ghostvar fencTag int
+//@ functype func(*ttlv.Encoder, int, reflect.Value)
+//@   params e, tag, v
+//@   ghost fencCalls = old(fencCalls) + 1
+//@   ghost fencEnc = e
+//@   ghost fencTag = tag
+
+//@ func applyVersionRangeEncode$1
+//@   requires e != nil && e.extension != nil && ffunc != nil
+//@   ensures old(e.extension.version == nil || inRange(vrange, *e.extension.version)) ==> fencCalls == old(fencCalls)+1 && fencEnc == e && fencTag == tag
+//@   ensures !old(e.extension.version == nil || inRange(vrange, *e.extension.version)) ==> fencCalls == old(fencCalls)
+//@   ghostmod fencCalls, fencEnc, fencTag
+
+//@ ghostvar fdecCalls int
+//@ ghostvar fdecDec *Decoder
+//@ ghostvar fdecTag int
+//@ functype func(d *ttlv.Decoder, i int, v reflect.Value) error
+//@   params d, i, v
+//@   ghost fdecCalls = old(fdecCalls) + 1
+//@   ghost fdecDec = d
+//@   ghost fdecTag = i
+
+//@ iface ttlv.reader.Tag
+//@   recv r
+//@   pure
+//@   functional
+//@ spec rtag(d *Decoder) int = ifn("iface ttlv.reader.Tag", d.r)
+
+// decoding: an element present on the wire is decoded whatever the version; an absent out-of-range element is zeroed
+//@ func applyVersionRangeDecode$1
+//@   requires d != nil && d.extension != nil && d.r != nil && ffunc != nil
+//@   ensures old(rtag(d) == i || d.extension.version == nil || inRange(rng, *d.extension.version)) ==> fdecCalls == old(fdecCalls)+1 && fdecDec == d && fdecTag == i
+//@   ensures !old(rtag(d) == i || d.extension.version == nil || inRange(rng, *d.extension.version)) ==> fdecCalls == old(fdecCalls) && r0 == nil
+//@   ghostmod fdecCalls, fdecDec, fdecTag
+
+// the nested encoder / decoder handed to a structure callback shares the parent's version holder
+//@ ghostvar cbEncExt *extension
+//@ ghostvar cbEncW writer
+//@ ghostvar cbDecExt *extension
+//@ ghostvar cbDecR reader
+//@ functype func(*ttlv.Encoder)
+//@   params e
+//@   requires e != nil
+//@   ghost cbEncExt = old(e.extension)
+//@   ghost cbEncW = old(e.w)
+//@ functype func(*ttlv.Decoder) error
+//@   params d
+//@   requires d != nil
+//@   ghost cbDecExt = old(d.extension)
+//@   ghost cbDecR = old(d.r)
+
+//@ func (*Encoder).Struct$1
+//@   requires enc != nil && f != nil
+//@   ensures cbEncExt == old(enc.extension) && cbEncW == w
+//@   ghostmod cbEncExt, cbEncW
+
+//@ func (*Decoder).Struct$1
+//@   requires dec != nil && f != nil
+//@   ensures cbDecExt == old(dec.extension) && cbDecR == r
+//@   ghostmod cbDecExt, cbDecR
+
+//@ iface ttlv.writer.Clear
+//@   recv w
+//@   pure
+
+//@ func (*Encoder).Clear
+//@   requires enc != nil && enc.extension != nil && enc.w != nil
+//@   ensures enc.extension.version == nil
+//@   modifies enc.extension.version
